@@ -45,6 +45,15 @@ def get_chunk_dtype_transformer(input_dtype, output_dtype, warn=True):
         output_max = 1.0
 
     work_dtype = np.promote_types(input_dtype, output_dtype)
+    clip_min, clip_max = output_min, output_max
+    if (np.issubdtype(input_dtype, np.integer)
+            and np.issubdtype(output_dtype, np.integer)):
+        # Integer to integer: clip in the input type, which is exact (the
+        # promoted type of a signed and a 64-bit unsigned integer is float64,
+        # which cannot hold all integers above 2**53).
+        work_dtype = input_dtype
+        clip_min = max(output_min, np.iinfo(input_dtype).min)
+        clip_max = min(output_max, np.iinfo(input_dtype).max)
 
     round_to_nearest = (
         np.issubdtype(output_dtype, np.integer)
@@ -77,7 +86,7 @@ def get_chunk_dtype_transformer(input_dtype, output_dtype, warn=True):
             if round_to_nearest:
                 np.rint(chunk, out=chunk)
             if clip_values:
-                np.clip(chunk, output_min, output_max, out=chunk)
+                np.clip(chunk, clip_min, clip_max, out=chunk)
         return chunk.astype(output_dtype, casting="unsafe")
 
     return chunk_transformer
